@@ -16,6 +16,7 @@ the in-place patch of a late-bound `Resolve` opcode are not rewound.
 import XehModel.Proofs.VMRev2
 import XehModel.Proofs.VMSim2
 import XehModel.Proofs.SessionUnwind
+import XehModel.Props.C10
 
 namespace Xeh.C02
 open Xeh Xeh.Mach
@@ -271,6 +272,22 @@ theorem compile_leaves_the_log_alone (fuel : Nat) (toks : List Compile.Tok) (s s
   | panic p s2 => cases h
   | unsupported u => cases h
   | timeout => cases h
+
+open Xeh.Session Xeh.Session.Sess in
+/-- **a source rejected while a program is paused takes nothing away from what can be stepped back.**  The program has
+    been stepped forward and back any number of times (the session is whatever that left: `Idle` asks only for
+    well-formed context marks, not for a finished program); a source is submitted and rejected — a typo at the prompt.
+    By C10's main theorem the machine is what it was, the reverse log included, so every number `k` of backward steps
+    afterwards ends in the core state and log it would have ended in without the rejected source (seeded change C02/11
+    cleared the log instead of cutting it back to the build mark). -/
+theorem rejected_source_keeps_the_history (fuel : Nat) (mode : Mode) (toks : List Compile.Tok) (s s' : Sess) (e : Xerr)
+    (idle : Idle s) (hmode : mode ≠ .metaEval) (h : s.buildSource fuel mode toks = .rejected e s') :
+    s'.m.log = s.m.log ∧ s'.m.core = s.m.core ∧
+    ∀ k back, rnextN k s.m = some back → ∃ back', rnextN k s'.m = some back' ∧ back.core = back'.core ∧ back.log = back'.log := by
+  have hr := C10.rejected_source_restores fuel mode toks s s' e idle hmode h
+  have hlog : s'.m.log = s.m.log := by rw [hr]
+  have hcore : s'.m.core = s.m.core := by rw [hr]; rfl
+  exact ⟨hlog, hcore, fun k back hk => rnextN_congr k s.m s'.m hcore.symm hlog.symm back hk⟩
 
 open Xeh.Session Xeh.Session.Sess in
 /-- **rewinding a compiled program.**  An idle session, recording on, the log empty or ending in a complete step
